@@ -13,7 +13,10 @@ use std::path::PathBuf;
 use verif_harness::tomlgen::*;
 use verif_harness::util::*;
 
+thread_local! { static EMPTY_STRINGS: std::cell::Cell<bool> = const { std::cell::Cell::new(false) }; }
 fn concrete(schema: &str, path: &str, kind: &str, free: &Value) -> Value {
+    // every third variation: the strings no grammar constrains are empty - present and empty is not absent
+    let empty = EMPTY_STRINGS.with(std::cell::Cell::get);
     match (path, kind) {
         ("api", _) => json!({"s": "0.10"}),
         (p, _) if p.ends_with("buildpack.id") || p.ends_with("group[].id") => json!({"s": "verif/schema-bp"}),
@@ -24,8 +27,10 @@ fn concrete(schema: &str, path: &str, kind: &str, free: &Value) -> Value {
         ("dependencies[].uri", _) => json!({"s": "docker://Registry.Example.COM:5000/a/../b%7ec/./y:1"}),
         ("platform.os", _) => json!({"s": "windows"}),
         ("processes[].type", _) => json!({"s": "web-1.x_y"}),
+        (_, "string") if empty => json!({"s": ""}),
         (p, "string") => json!({"s": format!("value of {p} in {schema} \"quoted\"")}),
         (_, "bool") => json!({"b": true}),
+        (_, "strings") if empty => json!({"a": [{"s": ""}, {"s": "two"}]}),
         (p, "strings") => json!({"a": [{"s": format!("{p} one")}, {"s": "two"}]}),
         (_, "free") => free.clone(),
         (_, "table") => json!({"t": {}}),
@@ -285,6 +290,7 @@ fn parse_and_project(schema: &str, text: &str) -> Result<BTreeMap<String, Value>
 
 fn run(v: &Value, idx: usize, variant: usize) -> Vec<String> {
     VIA_FILE.with(|c| c.set((variant + idx) % 2 == 1));
+    EMPTY_STRINGS.with(|c| c.set((variant + idx / 2) % 3 == 0));
     let schema = v["schema"].as_str().unwrap();
     let paths: Vec<String> = serde_json::from_value(v["doc"].clone()).unwrap();
     let mut r = fastrand::Rng::with_seed(seed().wrapping_add(idx as u64));
